@@ -309,7 +309,7 @@ func (l *Large) LoadInto(k *Case) {
 		for _, d := range o.Docs {
 			have := false
 			for _, e := range k.Ref.Docs {
-				if types.Compare(e.Get(S("id")), d.Get(S("id"))) == 0 {
+				if RCompare(Field(e, S("id")), Field(d, S("id"))) == 0 {
 					have = true
 					break
 				}
